@@ -773,7 +773,9 @@ func ruleC04R11(r *Run) {
 			// and the loop is reached on every path: no return in front of it (an "already known" exit of another pass
 			// of a merged function must not skip this one)
 			if header != nil {
-				byp := reachesFromEntryWithout(fn, func(x ssa.Instruction) bool { return isReturn(x) && x.Block() != fn.Recover }, func(x ssa.Instruction) bool { return x.Block() == header })
+				byp := reachesFromEntryWithout(fn, func(x ssa.Instruction) bool {
+					return isReturn(x) && x.Block() != fn.Recover && !c04PrescanCovers(fn, loop, x)
+				}, func(x ssa.Instruction) bool { return x.Block() == header })
 				w2 := posOf(p, c)
 				if byp != nil {
 					w2 = posOf(p, byp)
@@ -785,6 +787,129 @@ func ruleC04R11(r *Run) {
 	if n == 0 {
 		r.Check("alias minting loops", true, "", "", "no alias is minted inside a loop")
 	}
+}
+
+// c04PrescanCovers: a return in front of the minting loop is the "nothing new in this chunk" exit of a look-ahead pass
+// when (a) another loop, whose header dominates the return, indexes the same collection as the minting loop, (b) that
+// loop tests membership (comma-ok) in a table the minting loop also looks up, and (c) from the not-found edge of every
+// such test the return cannot be reached once booleans are propagated along the path (the flag form
+// `unknown = true; break … if !unknown { return }` included): an identifier without an alias always leads on to the
+// minting loop, so every identifier is still considered.
+func c04PrescanCovers(fn *ssa.Function, mint map[*ssa.BasicBlock]bool, ret ssa.Instruction) bool {
+	indexed := func(blocks map[*ssa.BasicBlock]bool) map[ssa.Value]bool {
+		out := map[ssa.Value]bool{}
+		for b := range blocks {
+			for _, ins := range b.Instrs {
+				switch x := ins.(type) {
+				case *ssa.IndexAddr:
+					out[canonVal(x.X)] = true
+				case *ssa.Index:
+					out[canonVal(x.X)] = true
+				}
+			}
+		}
+		return out
+	}
+	tables := func(blocks map[*ssa.BasicBlock]bool) map[string][]*ssa.Lookup {
+		out := map[string][]*ssa.Lookup{}
+		for b := range blocks {
+			for _, ins := range b.Instrs {
+				if lk, ok := ins.(*ssa.Lookup); ok && lk.CommaOk {
+					if u, isU := lk.X.(*ssa.UnOp); isU && u.Op == token.MUL {
+						if fk := fieldKeyOfAddr(u.X); fk != "" {
+							out[fk] = append(out[fk], lk)
+						}
+					}
+				}
+			}
+		}
+		return out
+	}
+	mintIdx, mintTab := indexed(mint), tables(mint)
+	if len(mintTab) == 0 {
+		return false
+	}
+	seenLoop := map[*ssa.BasicBlock]bool{}
+	for _, b := range fn.Blocks {
+		if mint[b] || seenLoop[b] || len(b.Instrs) == 0 || !inLoop(b.Instrs[0]) {
+			continue
+		}
+		pre := loopBlocks(b)
+		for x := range pre {
+			seenLoop[x] = true
+		}
+		overlap := false
+		for x := range pre {
+			if mint[x] {
+				overlap = true
+			}
+		}
+		if overlap {
+			continue
+		}
+		var hdr *ssa.BasicBlock
+		for x := range pre {
+			for _, pr := range x.Preds {
+				if !pre[pr] {
+					hdr = x
+				}
+			}
+		}
+		if hdr == nil || !hdr.Dominates(ret.Block()) {
+			continue
+		}
+		same := false
+		for v := range indexed(pre) {
+			if mintIdx[v] {
+				same = true
+			}
+		}
+		if !same {
+			continue
+		}
+		tests, covered := 0, true
+		for fk, lks := range tables(pre) {
+			if _, shared := mintTab[fk]; !shared {
+				continue
+			}
+			for _, lk := range lks {
+				for _, ref := range *lk.Referrers() {
+					ex, isEx := ref.(*ssa.Extract)
+					if !isEx || ex.Index != 1 {
+						continue
+					}
+					for _, r2 := range *ex.Referrers() {
+						var ifs *ssa.If
+						notFound := 1
+						switch y := r2.(type) {
+						case *ssa.If:
+							ifs = y
+						case *ssa.UnOp:
+							if y.Op == token.NOT {
+								for _, r3 := range *y.Referrers() {
+									if i3, isIf := r3.(*ssa.If); isIf {
+										ifs, notFound = i3, 0
+									}
+								}
+							}
+						}
+						if ifs == nil {
+							covered = false // the outcome goes somewhere this rule does not follow
+							continue
+						}
+						tests++
+						if edgeReaches(ifs.Block(), ifs.Block().Succs[notFound], ret) {
+							covered = false
+						}
+					}
+				}
+			}
+		}
+		if tests > 0 && covered {
+			return true
+		}
+	}
+	return false
 }
 
 // ruleC04R13: an ack buffer is emptied only where its contents have just been packed into an ack, or on a stream that
